@@ -532,6 +532,11 @@ func runC05(r *rt.Runner) {
 		c05CheckBundle(c, b, "options/escapes", "option-values")
 		c.Feature("c05:option-values")
 	})
+	// JSON names that are not the ones derived from the proto field names
+	r.Do("naming", func(c *rt.C) {
+		c05CheckBundle(c, namingBundle(), "naming/containers", "naming-stress")
+		c.Feature("c05:naming-stress")
+	})
 	// name-scoping hazards
 	r.Do("scoping", func(c *rt.C) {
 		inner := func(name string) *jT {
